@@ -139,7 +139,9 @@ def v1_v2(run, roles):
                    f"the path [{lab}] ends with {p.end} {p.value_text()}", module=mod, node=p.node or b, func=fn.name,
                    construct=VERR + " [raise]")
         elif p.end == "raise":
-            run.ob("V1", not evs_before or True, f"other raise [{lab}]")
+            run.ob("V1", not evs_before, f"no raise follows the field's event [{lab}]",
+                   f"on the path [{lab}] a raise follows the event of the field (strict mode would emit an event for the offending field)",
+                   module=mod, node=p.node or fn, func=fn.name, construct="raise after event")
         if valid is True:
             run.ob("V1", not warns and not raised_verr, "a valid value is neither warned about nor rejected",
                    f"a valid value gets {len(warns)} warning(s) on the path [{lab}]", module=mod, node=p.node or fn, func=fn.name,
@@ -151,14 +153,8 @@ def v1_v2(run, roles):
                    func=fn.name, construct=VERR + " [warn]")
     run.ob("V1", n_strict >= 1, "strict raise follows the construction of the error",
            "no raise of the constructed error on the invalid branch", module=mod, node=b, func=fn.name, construct=VERR + " [raise]")
-    raises = [n for n in V.cfg.nodes if n.kind == "stmt" and isinstance(n.ast, ast.Raise)]
-    after = set()
-    for y_, _ in evs:
-        after |= V.reachable_from(y_)
-    late = [r for r in raises if r.id in after]
-    run.ob("V1", not late, "no raise can follow the field's event", "a raise is reachable after the event of the field was "
-           "emitted (strict mode would emit an event for the offending field)", module=mod,
-           node=late[0].ast if late else fn, func=fn.name, construct="raise after event")
+    # (a raise after the field's event is judged per feasible path above: a raise statement that only infeasible paths reach -
+    # the mode test repeated inside a shared report helper - is not a raise after the event)
     # V2 contents
     cons = kwarg(b, "constraint") or (b.args[0] if b.args else None)
     val = kwarg(b, "value") or (b.args[1] if len(b.args) > 1 else None)
